@@ -1,10 +1,20 @@
-import Proofs.Sort
+import Proofs.SortExt
 /-!
 # C16 — External sort returns the sorted (and combined) multiset of its input
-(statements; helper lemmas are in `Proofs/Sort*.lean`, the model in `Model/Sort.lean`)
+
+Statements over the model `Model/Sort.lean` of `util/stream/sort.hh`; helper lemmas are in
+`Proofs/Sort*.lean`.  Everything is for an arbitrary record type `α`, an arbitrary `Bool`
+comparison with the strict-weak-order laws as hypotheses, arbitrary chain blocks, an arbitrary
+finite merge plan (any number of passes, each any partition of the run list into consecutive
+groups — which includes the plan the code computes from `buffer_size`, `total_memory`,
+`lazy_memory`), and an arbitrary tie-break function `pick` for the priority queue.
+`extSort … = some out` : `none` would mean the Offsets log could not be read back;
+`extSort_isSome` shows that this never happens.
 -/
 namespace KV.C16
-open KV.Sort
+open KV.Sort List
+
+variable {α : Type}
 
 /-! ## The comparison functors of lm/common/compare.hh are strict weak orders -/
 
@@ -14,5 +24,221 @@ theorem contextOrder_lawful : StrictWeak contextLt := lexLt_strictWeak.comap _
 theorem intOrder_lawful : StrictWeak intLt :=
   StrictWeak.comap (lt := fun (a b : Nat) => decide (a < b))
     ⟨by simp, by intro a b c; simp; omega, by intro a b c; simp; omega⟩ _
+theorem fullOrder_lawful : StrictWeak fullLt := lexLt_strictWeak.comap _
+
+/-- `fullLt` is a total order on whole records -/
+theorem fullOrder_total (a b : Rec) (h1 : fullLt a b = false) (h2 : fullLt b a = false) : a = b := by
+  have := lexLt_tri _ _ h1 h2
+  have h := List.append_inj' this rfl
+  cases a; cases b; simp_all
+
+/-! ## Offsets -/
+
+/-- **offsets_roundtrip**: after any sequence of `Append`s and `FinishedAppending`,
+`RemainingBlocks()` is the number of non-zero lengths appended and that many `NextSize()`
+calls return them in order (zero lengths are never logged; equal consecutive lengths share
+one run-length entry). -/
+theorem offsets_roundtrip (lengths : List Nat) :
+    ∃ r, offsetsEncode lengths = some r ∧ r.blockCount = (lengths.filter (· ≠ 0)).length ∧
+      offsetsDecode r = some (lengths.filter (· ≠ 0)) :=
+  offsets_roundtrip_aux lengths
+
+example : (offsetsEncode [5, 5, 0, 3, 3, 3, 7, 5, 5]).bind offsetsDecode = some [5, 5, 3, 3, 3, 7, 5, 5] := by decide
+example : (offsetsEncode [5, 5, 0, 3, 3, 3, 7, 5, 5]).map (·.rest) = some [(3, 3), (7, 1), (5, 2)] := by decide
+
+/-- the runs written to the data file are read back unchanged, minus the empty ones -/
+theorem storeRuns_roundtrip {β : Type} (runs : List (List β)) :
+    storeRuns runs = some (runs.filter (fun r => !r.isEmpty)) := storeRuns_eq runs
+
+/-- the sort never fails on the Offsets log -/
+theorem extSort_isSome (lt : α → α → Bool) (comb) (pick) (blocks : List (List α)) (plan) :
+    ∃ out, extSort lt comb pick blocks plan = some out := by
+  obtain ⟨runs', _, h⟩ := extSort_unfold lt comb pick blocks plan
+  exact ⟨_, h⟩
+
+/-! ## Merge of sorted runs -/
+
+/-- **merge of sorted lists is sorted and a permutation** of their concatenation, whichever of
+several equal minimal heads the priority queue returns -/
+theorem merge_sorted_perm {lt : α → α → Bool} (h : StrictWeak lt) (pick) (runs : List (List α))
+    (hr : ∀ r ∈ runs, r.Pairwise (fun a b => lt b a = false)) :
+    (kmerge lt pick (toQueue runs)).Pairwise (fun a b => lt b a = false) ∧
+      kmerge lt pick (toQueue runs) ~ runs.flatten :=
+  ⟨kmerge_sorted h pick runs hr, kmerge_perm h pick runs⟩
+
+example : kmerge (fun a b : Nat => decide (a < b)) (fun _ => 1) (toQueue [[1, 4, 4], [], [2, 4], [0]]) = [0, 1, 2, 4, 4, 4] := by
+  decide
+
+/-! ## The external sort -/
+
+/-- **extSort_sorted**: the output is in non-decreasing order, for every combiner that keeps a
+record equivalent to the one it combines into (`CombineCounts`, `NeverCombine`). -/
+theorem extSort_sorted {lt : α → α → Bool} (h : StrictWeak lt) {comb} (hc : CombKeeps lt comb) (pick)
+    (blocks : List (List α)) (plan) {out} (ho : extSort lt comb pick blocks plan = some out) :
+    out.Pairwise (fun a b => lt b a = false) := by
+  obtain ⟨runs', hp, he⟩ := extSort_unfold lt comb pick blocks plan
+  rw [he] at ho; cases ho
+  apply finalMerge_sorted h hc pick
+  exact passes_induct (AllSorted lt) (fun sizes r r' hP hp => pass_sorted h hc pick sizes hP hp)
+    plan _ _ (initial_sorted h blocks) hp
+
+/-- **extSort_perm**: without a combiner the output is a permutation of the input records. -/
+theorem extSort_perm {lt : α → α → Bool} (h : StrictWeak lt) (pick) (blocks : List (List α)) (plan) {out}
+    (ho : extSort lt neverCombine pick blocks plan = some out) : out ~ blocks.flatten := by
+  obtain ⟨runs', hp, he⟩ := extSort_unfold lt neverCombine pick blocks plan
+  rw [he] at ho; cases ho
+  refine (finalMerge_perm h pick runs').trans ?_
+  have h0 : (nonempties (blocks.map (blockSort lt))).flatten ~ blocks.flatten := by
+    rw [flatten_nonempties]; exact flatten_map_blockSort_perm lt blocks
+  exact passes_induct (fun r => r.flatten ~ blocks.flatten)
+    (fun sizes r r' hP hp => (pass_perm h pick sizes hp).trans hP) plan _ _ h0 hp
+
+theorem neverCombine_keeps (lt : α → α → Bool) : CombKeeps lt neverCombine := by
+  intro a b c h; simp [neverCombine] at h
+
+/-- **extSort_sum**: any quantity `w` that the combiner adds up (`w c = w a + w b` whenever
+`a` and `b` are combined into `c`) has the same total over the output as over the input. -/
+theorem extSort_sum {lt : α → α → Bool} (h : StrictWeak lt) {comb : α → α → Option α} (pick) (w : α → Nat)
+    (hw : ∀ a b c, comb a b = some c → w c = w a + w b)
+    (blocks : List (List α)) (plan) {out} (ho : extSort lt comb pick blocks plan = some out) :
+    (out.map w).sum = (blocks.flatten.map w).sum := by
+  obtain ⟨runs', hp, he⟩ := extSort_unfold lt comb pick blocks plan
+  rw [he] at ho; cases ho
+  rw [finalMerge_sum h pick w hw]
+  have h0 : ((nonempties (blocks.map (blockSort lt))).flatten.map w).sum = (blocks.flatten.map w).sum := by
+    rw [flatten_nonempties]; exact ((flatten_map_blockSort_perm lt blocks).map w).sum_nat
+  exact passes_induct (fun r => (r.flatten.map w).sum = (blocks.flatten.map w).sum)
+    (fun sizes r r' hP hp => (pass_sum h pick w hw sizes hp).trans hP) plan _ _ h0 hp
+
+/-- total count of key `k` in a list of records -/
+def total (k : List Nat) (l : List Rec) : Nat := (l.map (fun r => if r.key = k then r.payload else 0)).sum
+
+/-- **extSort_combine (totals)**: with the counting combiner, the total count of every key is
+preserved (for every strict weak order, every block structure, every plan). -/
+theorem extSort_combine_totals {lt : Rec → Rec → Bool} (h : StrictWeak lt) (pick) (blocks : List (List Rec)) (plan)
+    {out} (ho : extSort lt combineCounts pick blocks plan = some out) (k : List Nat) :
+    total k out = total k blocks.flatten := by
+  apply extSort_sum h pick _ _ blocks plan ho
+  intro a b c hc
+  unfold combineCounts at hc
+  by_cases hab : a.key = b.key
+  · simp only [hab, ↓reduceIte, Option.some.injEq] at hc
+    subst hc
+    by_cases hk : b.key = k <;> simp [hab, hk]
+  · simp [hab] at hc
+
+/-- **extSort_combine (duplicate-free)**: if the comparison tells records apart exactly by a key,
+the combiner merges every two records with the same key and keeps the key, and every input
+block is duplicate-free, then the output is duplicate-free.  (The hypothesis on the blocks is
+needed: a single block is only sorted and copied — `ReadSingle` — never combined.) -/
+theorem extSort_nodup {κ : Type} (key : α → κ) {lt : α → α → Bool} (h : StrictWeak lt)
+    (hkey : ∀ a b, (lt a b = false ∧ lt b a = false) ↔ key a = key b)
+    {comb} (hc : CombKeeps lt comb) (hk : CombComplete lt comb) (pick)
+    (blocks : List (List α)) (hb : ∀ b ∈ blocks, (b.map key).Nodup) (plan) {out}
+    (ho : extSort lt comb pick blocks plan = some out) : (out.map key).Nodup := by
+  obtain ⟨runs', hp, he⟩ := extSort_unfold lt comb pick blocks plan
+  rw [he] at ho; cases ho
+  have h0 : AllStrict lt (nonempties (blocks.map (blockSort lt))) := by
+    intro r hr
+    obtain ⟨b, hbm, rfl⟩ := mem_map.mp (mem_nonempties.mp hr).1
+    have hs := blockSort_sorted h b
+    have hn : ((blockSort lt b).map key).Nodup := ((blockSort_perm lt b).map key).nodup_iff.mpr (hb b hbm)
+    rw [Nodup, pairwise_map] at hn
+    refine hs.imp₂ (fun x y hle hne => ?_) hn
+    cases hxy : lt x y with
+    | true => rfl
+    | false => exact absurd ((hkey x y).mp ⟨hxy, hle⟩) hne
+  have hstrict := finalMerge_strict h hc hk pick
+    (passes_induct (AllStrict lt) (fun sizes r r' hP hp => pass_strict h hc hk pick sizes hP hp) plan _ _ h0 hp)
+  rw [Nodup, pairwise_map]
+  refine hstrict.imp (fun {x y} hxy hkk => ?_)
+  have := ((hkey x y).mpr hkk).1
+  rw [hxy] at this; cases this
+
+/-- **extSort_unique**: if the comparison is a total order on the whole records that occur
+(no two different records compare equal) then, without a combiner, the result does not depend
+on how the input was cut into blocks, on the merge plan, or on the queue's tie-breaking:
+inputs that are permutations of each other give the same output. -/
+theorem extSort_unique {lt : α → α → Bool} (h : StrictWeak lt) (blocks₁ blocks₂ : List (List α))
+    (htot : ∀ a b, a ∈ blocks₁.flatten → b ∈ blocks₁.flatten → lt a b = false → lt b a = false → a = b)
+    (hperm : blocks₁.flatten ~ blocks₂.flatten) (pick₁ pick₂) (plan₁ plan₂) :
+    extSort lt neverCombine pick₁ blocks₁ plan₁ = extSort lt neverCombine pick₂ blocks₂ plan₂ := by
+  obtain ⟨o1, h1⟩ := extSort_isSome lt neverCombine pick₁ blocks₁ plan₁
+  obtain ⟨o2, h2⟩ := extSort_isSome lt neverCombine pick₂ blocks₂ plan₂
+  rw [h1, h2]
+  congr 1
+  have p1 := extSort_perm h pick₁ blocks₁ plan₁ h1
+  have p2 := extSort_perm h pick₂ blocks₂ plan₂ h2
+  have s1 := extSort_sorted h (neverCombine_keeps lt) pick₁ blocks₁ plan₁ h1
+  have s2 := extSort_sorted h (neverCombine_keeps lt) pick₂ blocks₂ plan₂ h2
+  refine Perm.eq_of_pairwise (le := fun a b => lt b a = false) ?_ s1 s2 (p1.trans (hperm.trans p2.symm))
+  intro a b ha hb hab hba
+  exact htot a b (p1.subset ha) (hperm.symm.subset (p2.subset hb)) hba hab
+
+/-- … and that output is the specification value printed by the driver: the sorted input. -/
+theorem extSort_eq_spec {lt : α → α → Bool} (h : StrictWeak lt) (blocks : List (List α))
+    (htot : ∀ a b, a ∈ blocks.flatten → b ∈ blocks.flatten → lt a b = false → lt b a = false → a = b)
+    (pick) (plan) :
+    extSort lt neverCombine pick blocks plan = some (sortSpec lt neverCombine blocks) := by
+  obtain ⟨o1, h1⟩ := extSort_isSome lt neverCombine pick blocks plan
+  rw [h1]
+  congr 1
+  have hspec : sortSpec lt neverCombine blocks = blocks.flatten.mergeSort (le lt) := by
+    unfold sortSpec; simp only [combineAdj_never]; split <;> rfl
+  rw [hspec]
+  have p1 := extSort_perm h pick blocks plan h1
+  have s1 := extSort_sorted h (neverCombine_keeps lt) pick blocks plan h1
+  have s2 : (blocks.flatten.mergeSort (le lt)).Pairwise (fun a b => lt b a = false) := blockSort_sorted h _
+  refine Perm.eq_of_pairwise (le := fun a b => lt b a = false) ?_ s1 s2 (p1.trans (mergeSort_perm _ _).symm)
+  intro a b ha hb hab hba
+  exact htot a b (p1.subset ha) ((mergeSort_perm _ _).subset hb) hba hab
+
+/-! ## Non-vacuity: the hypotheses are satisfiable by the orders and the combiner of the code -/
+
+theorem combineCounts_keeps_prefix : CombKeeps prefixLt combineCounts := by
+  intro a b c hc
+  unfold combineCounts at hc
+  by_cases hab : a.key = b.key
+  · simp only [hab, ↓reduceIte, Option.some.injEq] at hc
+    subst hc
+    simp [prefixLt, hab, lexLt_irrefl]
+  · simp [hab] at hc
+
+theorem combineCounts_keeps_suffix : CombKeeps suffixLt combineCounts := by
+  intro a b c hc
+  unfold combineCounts at hc
+  by_cases hab : a.key = b.key
+  · simp only [hab, ↓reduceIte, Option.some.injEq] at hc
+    subst hc
+    simp [suffixLt, hab, lexLt_irrefl]
+  · simp [hab] at hc
+
+theorem suffix_key_total (a b : Rec) : (suffixLt a b = false ∧ suffixLt b a = false) ↔ a.key = b.key := by
+  constructor
+  · intro ⟨h1, h2⟩
+    have := lexLt_tri _ _ h1 h2
+    exact List.reverse_inj.mp this
+  · intro hk
+    simp [suffixLt, hk, lexLt_irrefl]
+
+theorem combineCounts_complete_suffix : CombComplete suffixLt combineCounts := by
+  intro a b h1 h2
+  have := (suffix_key_total a b).mp ⟨h1, h2⟩
+  simp [combineCounts, this]
+
+/-! Concrete runs of the merge machinery (block sorting itself is `List.mergeSort`, which `decide`
+cannot unfold, so the examples start from sorted runs). -/
+
+example : (passes (fun a b : Nat => decide (a < b)) neverCombine (fun _ => 0) [[2], [5]] [[1, 3], [2, 2], [0]]).map
+    (finalMerge (fun a b : Nat => decide (a < b)) neverCombine (fun _ => 0)) = some [0, 1, 2, 2, 3] := by decide
+
+example : (passes suffixLt combineCounts (fun _ => 0) [[2]]
+      [[⟨[0, 1], 1⟩, ⟨[1, 2], 5⟩], [⟨[1, 2], 7⟩], [⟨[3, 0], 2⟩, ⟨[1, 2], 1⟩]]).map
+    (finalMerge suffixLt combineCounts (fun _ => 0))
+    = some [⟨[3, 0], 2⟩, ⟨[0, 1], 1⟩, ⟨[1, 2], 13⟩] := by decide
+
+/-- a single run is only copied, not combined (`ReadSingle`): this is why the duplicate-free
+clause needs duplicate-free blocks -/
+example : finalMerge suffixLt combineCounts (fun _ => 0) [[⟨[1], 5⟩, ⟨[1], 7⟩]] = [⟨[1], 5⟩, ⟨[1], 7⟩] := by decide
 
 end KV.C16
